@@ -188,7 +188,15 @@ func (r *storeRun) op(t *toks) {
 		line(25, uint64(r.c.GetDocumentCount()))
 	case 26:
 		kind, a, b, off, lim := t.next(), t.next(), t.next(), t.next(), t.next()
-		res := r.c.Search(syz.SearchArgs{Filter: filterOf(kind, a, b), Offset: int(off), Limit: int(lim)})
+		args := syz.SearchArgs{Filter: filterOf(kind%16, a, b), Offset: int(off), Limit: int(lim)}
+		if kind >= 16 {
+			// neither K nor radius, but a query vector is present: still a listing
+			args.Vector = make([]float64, r.dim)
+			for i := range args.Vector {
+				args.Vector[i] = 0.5
+			}
+		}
+		res := r.c.Search(args)
 		v := []uint64{26, 0, uint64(len(res.Results))}
 		for _, x := range res.Results {
 			v = append(v, x.ID, uint64(len(x.Metadata)), hashBytes(x.Metadata))
